@@ -1,11 +1,15 @@
 import Mitx.Driver.Munkres
 import Mitx.Driver.Attempt
+import Mitx.Driver.Parser
 open Lean
 
 def dispatch (op : String) (j : Json) : Except String Json :=
   match op with
   | "munkres" => Drv.munkres j
   | "sched" => Drv.sched j
+  | "parse" => Drv.parse j
+  | "parse_hist" => Drv.parseHist j
+  | "eval" => Drv.eval j
   | "apply_attempt" => Drv.applyAtt j
   | _ => .error s!"unknown op {op}"
 
